@@ -364,7 +364,11 @@ type knownEntry struct {
 
 func loadKnown() []knownEntry {
 	var out []knownEntry
-	f, err := os.Open(filepath.Join(VerifDir(), "known-findings.txt"))
+	home := os.Getenv("VERIF_HOME")
+	if home == "" {
+		home = VerifDir()
+	}
+	f, err := os.Open(filepath.Join(home, "known-findings.txt"))
 	if err != nil {
 		return nil
 	}
